@@ -37,21 +37,20 @@ def VKey.zero : VKey := .ofChain []
 /-- `ECChainKey.IsZero`. -/
 def VKey.isZero (k : VKey) : Bool := k == VKey.zero
 
-/-- Phases are `uint8` on the wire, so any number may arrive. -/
-abbrev Phase := Nat
-abbrev INITIAL : Phase := 0
-abbrev QUALITY : Phase := 1
-abbrev CONVERGE : Phase := 2
-abbrev PREPARE : Phase := 3
-abbrev COMMIT : Phase := 4
-abbrev DECIDE : Phase := 5
-abbrev TERMINATED : Phase := 6
+/-- Phases are `uint8` on the wire, so any number may arrive; they are plain `Nat`s in the model. -/
+abbrev INITIAL : Nat := 0
+abbrev QUALITY : Nat := 1
+abbrev CONVERGE : Nat := 2
+abbrev PREPARE : Nat := 3
+abbrev COMMIT : Nat := 4
+abbrev DECIDE : Nat := 5
+abbrev TERMINATED : Nat := 6
 
 /-- `gpbft.Payload`; `supp` is the interned supplemental data. -/
 structure Payload where
   inst : Nat
   round : Nat
-  phase : Phase
+  phase : Nat
   supp : Nat
   value : Chain
   deriving DecidableEq, Repr
@@ -59,7 +58,7 @@ structure Payload where
 /-- The byte strings that get signed. -/
 inductive SigMsg where
   /-- `Payload.MarshalForSigningWithValueKey(network, key)` -/
-  | vote (net inst round : Nat) (phase : Phase) (supp : Nat) (key : VKey)
+  | vote (net inst round : Nat) (phase : Nat) (supp : Nat) (key : VKey)
   /-- `vrfSerializeSigInput(beacon, instance, round, network)` -/
   | vrf (net beacon inst round : Nat)
   | other (n : Nat)
@@ -126,7 +125,7 @@ def Committee.total (c : Committee) : Nat := sumNat (c.entries.map (·.power))
 structure Progress where
   id : Nat
   round : Nat
-  phase : Phase
+  phase : Nat
   deriving DecidableEq, Repr
 
 inductive Verdict where
